@@ -88,7 +88,7 @@ def determinism(args) -> int:
 
 def _scratch_copy(repo: str) -> str:
     d = tempfile.mkdtemp(prefix="verif-scratch-")
-    for name in ("oneliner", "oneliner_tests", "pyproject.toml"):
+    for name in ("oneliner", "oneliner_tests", "pyproject.toml", "README.md", "LICENSE", "requirements-dev.txt", "requirements-test.txt"):
         src = os.path.join(repo, name)
         if os.path.isdir(src):
             shutil.copytree(src, os.path.join(d, name), ignore=shutil.ignore_patterns("__pycache__"))
